@@ -358,6 +358,9 @@ func realTrace(args []string) int {
 			cx, cy = minX+span-radius*(1.2+rng.Float64()), minY+span-radius*(1.2+rng.Float64())
 		case "farband": // one vertex inside the extent but within the reported deviation of the right/top border (finding F10)
 			cx, cy = minX+span-radius*1.05, minY+span*(0.2+0.6*rng.Float64())
+		case "sw": // the south-west twentieth of the extent: pixel addresses stay below 2^32 up to level 36, so ids deeper than
+			// quadtree level 32 work there (finding F9 lives in the rest of the extent)
+			cx, cy = minX+span*(0.002+0.045*rng.Float64()), minY+span*(0.002+0.045*rng.Float64())
 		case "centre": // on the centre lines of the extent (x = 0 / y = 0 of the Mercator sets): where the four root quadrants meet
 			cx, cy = minX+span/2, minY+span/2
 			switch rng.Intn(3) {
